@@ -190,8 +190,9 @@ package template
 //@   ensures wf: r.state <= stateError && r.delim <= delimSpaceOrTagEnd && 0 <= n && n <= len(s)
 //@   ensures range: 0 <= n && n <= len(s)
 //@   ensures none: forall(p, 0, len(s), !tagstart(s, p)) ==> same(r, c) && n == len(s)
-//@   ensures first: exists(p, 0, len(s), tagstart(s, p)) ==> exists(p, 0, len(s), tagstart(s, p) && forall(q, 0, p, !tagstart(s, q)) && ite(commentat(s, p), r.state == stateHTMLCmt && n == p + 4 && len(r.element.name) == 0, r.state == stateTag && ite(s[p+1] == 47, n == tagend(s, p + 2) && len(r.element.name) == 0, n == tagend(s, p + 1) && seqeq(r.element.name, lower(sub(s, p + 1, n))))))
-//@   ensures fresh: exists(p, 0, len(s), tagstart(s, p)) ==> r.delim == delimNone && len(r.attr.name) == 0 && len(r.attr.value) == 0 && isnil(r.err) && len(r.linkRel) == 0 && len(r.scriptType) == 0 && len(r.element.names) == 0
+//@   ensures first: exists(p, 0, len(s), tagstart(s, p)) ==> exists(p, 0, len(s), tagstart(s, p) && forall(q, 0, p, !tagstart(s, q)) && ite(commentat(s, p), r.state == stateHTMLCmt && n == p + 4 && len(r.element.name) == 0, ite(s[p+1] == 47, ite(NAMECUT(s, p + 2), r.state == stateError && !isnil(r.err) && n == len(s), r.state == stateTag && n == tagend(s, p + 2) && len(r.element.name) == 0), ite(NAMECUT(s, p + 1), r.state == stateError && !isnil(r.err) && n == len(s), r.state == stateTag && n == tagend(s, p + 1) && seqeq(r.element.name, lower(sub(s, p + 1, n)))))))
+//@   ensures nameend: r.state == stateTag && c.state != stateTag ==> n == len(s) || tagendsep(s[n])
+//@   ensures fresh: exists(p, 0, len(s), tagstart(s, p)) && r.state != stateError ==> r.delim == delimNone && len(r.attr.name) == 0 && len(r.attr.value) == 0 && isnil(r.err) && len(r.linkRel) == 0 && len(r.scriptType) == 0 && len(r.element.names) == 0
 //@   loop 1
 //@     invariant 0 <= k && k <= len(s)
 //@     invariant forall(p, 0, k, !tagstart(s, p))
